@@ -30,7 +30,8 @@ inductive AccessCase (s : State) (t : TxId) (tx : Tx) (n : Name) : ObjId → Obj
   | fresh (inMap : Bool)
       (hmap : inMap = true → s.shared = true ∧ s.map n = none)
       (hpriv : inMap = false → s.shared = false ∨
-        ∃ o ob, s.map n = some o ∧ s.objs o = some ob ∧ tx.isWrite = false ∧ ob.writer.isSome = true) :
+        (∃ o ob, s.map n = some o ∧ s.objs o = some ob ∧ tx.isWrite = false ∧ ob.writer.isSome = true) ∨
+        (tx.isWrite = true → s.map n = none)) :
       AccessCase s t tx n s.nextObj
         (if tx.isWrite then freshObj n t 0 (some t) (!inMap) else freshObj n t (if inMap then 1 else 0) none (!inMap))
         (s.nextObj + 1) (if inMap then upd s.map n (some s.nextObj) else s.map)
@@ -38,9 +39,43 @@ inductive AccessCase (s : State) (t : TxId) (tx : Tx) (n : Name) : ObjId → Obj
       (hw : ob.writer = none) (hr : tx.isWrite = true → ob.readers = 0) :
       AccessCase s t tx n o (takeShared t tx ob) s.nextObj s.map
 
-theorem stepAccess_some {s s' : State} {t : TxId} {n : Name} (h : stepAccess s t n = some s') :
+/-- what an enabled `access` / `accessCold` does -/
+abbrev AccessOut (s : State) (t : TxId) (n : Name) (s' : State) : Prop :=
     ∃ tx o ob' nx mp, s.txs t = some tx ∧ tx.isOpen = true ∧ tx.cur n = none ∧
-      AccessCase s t tx n o ob' nx mp ∧ s' = withAccess s t tx n o ob' nx mp := by
+      AccessCase s t tx n o ob' nx mp ∧ s' = withAccess s t tx n o ob' nx mp
+
+theorem stepAccessCold_some {s s' : State} {t : TxId} {n : Name} (h : stepAccessCold s t n = some s') :
+    AccessOut s t n s' := by
+  unfold AccessOut
+  unfold stepAccessCold at h
+  cases ht : s.txs t with
+  | none => simp [ht] at h
+  | some tx =>
+    simp only [ht] at h
+    by_cases hopen : tx.isOpen = false
+    · rw [if_pos hopen] at h; simp at h
+    · rw [if_neg hopen] at h
+      have hopen' : tx.isOpen = true := by simpa using hopen
+      by_cases hcs : (tx.cur n).isSome = true
+      · rw [if_pos hcs] at h; simp at h
+      · rw [if_neg hcs] at h
+        have hcur : tx.cur n = none := by
+          cases hh : tx.cur n with
+          | none => rfl
+          | some o => simp [hh] at hcs
+        by_cases hwm : tx.isWrite = true ∧ (s.map n).isSome = true
+        · rw [if_pos hwm] at h; simp at h
+        · rw [if_neg hwm] at h
+          simp only [Option.some.injEq] at h
+          refine ⟨tx, _, _, _, _, rfl, hopen', hcur, AccessCase.fresh false (by simp) (fun _ => Or.inr (Or.inr ?_)), h.symm⟩
+          intro hw
+          cases hm : s.map n with
+          | none => rfl
+          | some o => exact absurd ⟨hw, by simp [hm]⟩ hwm
+
+theorem stepAccess_some {s s' : State} {t : TxId} {n : Name} (h : stepAccess s t n = some s') :
+    AccessOut s t n s' := by
+  unfold AccessOut
   unfold stepAccess at h
   cases ht : s.txs t with
   | none => simp [ht] at h
@@ -86,7 +121,7 @@ theorem stepAccess_some {s s' : State} {t : TxId} {n : Name} (h : stepAccess s t
                 · rw [if_pos hws] at h
                   simp only [Option.some.injEq] at h
                   exact ⟨tx, _, _, _, _, rfl, hopen', hcur,
-                    AccessCase.fresh false (by simp) (fun _ => Or.inr ⟨o, ob, hm, ho, hw', hws⟩), h.symm⟩
+                    AccessCase.fresh false (by simp) (fun _ => Or.inr (Or.inl ⟨o, ob, hm, ho, hw', hws⟩)), h.symm⟩
                 · rw [if_neg hws] at h
                   simp only [Option.some.injEq] at h
                   have : ob.writer = none := by
@@ -370,8 +405,9 @@ theorem serInv_step {d0 : Disk} (s : State) (l : Label) (s' : State) (h : SerInv
     · simp only [upd_other _ _ _ _ hut] at hu
       have := (h.wr u tx hu hw ho).1
       simp [hwn] at this
-  | access t n =>
-    obtain ⟨tx, o, ob', nx, mp, ht, hop, hc, _, rfl⟩ := stepAccess_some hs
+  | access t n | accessCold t n =>
+    obtain ⟨tx, o, ob', nx, mp, ht, hop, hc, _, rfl⟩ : AccessOut s t n s' := by
+      first | exact stepAccess_some hs | exact stepAccessCold_some hs
     apply serInv_frame h <;> (try rfl)
     simp only [withAccess]
     frame_at t ht
@@ -481,7 +517,10 @@ theorem disks_mono {s s' : State} {l : Label} (hs : step s l = some s') : ∀ d 
   cases l with
   | beginR t => obtain ⟨_, rfl⟩ := stepBeginR_some hs; exact hd
   | beginW t => obtain ⟨_, _, rfl⟩ := stepBeginW_some hs; exact hd
-  | access t n => obtain ⟨tx, o, ob', nx, mp, _, _, _, _, rfl⟩ := stepAccess_some hs; exact hd
+  | access t n | accessCold t n =>
+    obtain ⟨tx, o, ob', nx, mp, _, _, _, _, rfl⟩ : AccessOut s t n s' := by
+      first | exact stepAccess_some hs | exact stepAccessCold_some hs
+    exact hd
   | leave t n => obtain ⟨tx, o, ob, _, _, _, _, rfl⟩ := stepLeave_some hs; exact hd
   | read t n i =>
     obtain ⟨tx, o, ob, _, _, _, _, hcase⟩ := stepRead_some hs
@@ -559,9 +598,9 @@ theorem upd_opt_cases {α : Type} {f : Nat → Option α} {k u : Nat} {v : Optio
   · subst hu; simp at h; exact Or.inl ⟨rfl, h⟩
   · rw [upd_other _ _ _ _ hu] at h; exact Or.inr ⟨hu, h⟩
 
-theorem privInv_access {s s' : State} {t : TxId} {n : Name} (h : PrivInv s) (hs : stepAccess s t n = some s') :
+theorem privInv_access {s s' : State} {t : TxId} {n : Name} (h : PrivInv s) (hs : AccessOut s t n s') :
     PrivInv s' := by
-  obtain ⟨tx, o, ob', nx, mp, ht, hop, hc, hcase, rfl⟩ := stepAccess_some hs
+  obtain ⟨tx, o, ob', nx, mp, ht, hop, hc, hcase, rfl⟩ := hs
   cases hcase with
   | existing o ob hsh => rw [h.sh] at hsh; exact absurd hsh (by simp)
   | fresh inMap hmap hpriv =>
@@ -752,7 +791,8 @@ theorem privInv_step (s : State) (l : Label) (s' : State) (h : PrivInv s) (hs : 
       rcases upd_some_cases hu with ⟨rfl, rfl⟩ | ⟨_, hold⟩
       · exact Or.inl ⟨rfl, rfl, rfl, rfl, latest_mem_disks s⟩
       · exact Or.inr ⟨tx', hold, Or.inl rfl, rfl, fun i hi => Or.inl hi, rfl, rfl, rfl⟩
-  | access t n => exact privInv_access h hs
+  | access t n => exact privInv_access h (stepAccess_some hs)
+  | accessCold t n => exact privInv_access h (stepAccessCold_some hs)
   | leave t n =>
     obtain ⟨tx, o, ob, ht, hw, hc, ho, rfl⟩ := stepLeave_some hs
     refine privInv_mk h.sh (priv_core_transfer h (Nat.le_refl _) ?_ (objs_keep_upd ho rfl rfl))
@@ -995,6 +1035,7 @@ theorem privInv_step (s : State) (l : Label) (s' : State) (h : PrivInv s) (hs : 
 /-- labels of a search of transaction `t` -/
 def Label.soloR (t : TxId) : Label → Bool
   | .access u _ => u == t
+  | .accessCold u _ => u == t
   | .leave u _ => u == t
   | .read u _ _ => u == t
   | .backfill u _ => u == t
@@ -1043,9 +1084,10 @@ theorem solo_step {d : Disk} {t : TxId} {acc} {s s' : State} {l : Label} (h : So
   | wr u op => simp [Label.soloR] at hl
   | release u n => simp [Label.soloR] at hl
   | evict n => simp [Label.soloR] at hl
-  | access u n =>
+  | access u n | accessCold u n =>
     simp only [Label.soloR, beq_iff_eq] at hl; subst hl
-    obtain ⟨tx, o, ob', nx, mp, ht, hop, hc, hcase, rfl⟩ := stepAccess_some hs
+    obtain ⟨tx, o, ob', nx, mp, ht, hop, hc, hcase, rfl⟩ : AccessOut s u n s' := by
+      first | exact stepAccess_some hs | exact stepAccessCold_some hs
     rw [ht0] at ht; simp only [Option.some.injEq] at ht; subst ht
     simp only [pushReads, withAccess]
     have hob' : ob'.name = n ∧ ob'.owner = u ∧ Agree ob' n d := by
@@ -1320,8 +1362,9 @@ theorem obsInv_step {s s' : State} {l : Label} (h : ObsInv s)
     rcases upd_some_cases hu with ⟨rfl, rfl⟩ | ⟨_, hold⟩
     · exact Or.inl ⟨rfl, rfl, rfl, rfl, latest_mem_disks s⟩
     · exact Or.inr ⟨tx', hold, Or.inl rfl, rfl, fun i hi => Or.inl hi, rfl, rfl, rfl⟩
-  | access t n =>
-    obtain ⟨tx, o, ob', nx, mp, ht, hop, hc, hcase, rfl⟩ := stepAccess_some hs
+  | access t n | accessCold t n =>
+    obtain ⟨tx, o, ob', nx, mp, ht, hop, hc, hcase, rfl⟩ : AccessOut s t n s' := by
+      first | exact stepAccess_some hs | exact stepAccessCold_some hs
     refine obs_transfer h (fun d hd => hd) rfl ?_
     simp only [withAccess]
     obs_same' ht
@@ -2600,8 +2643,8 @@ theorem noInv_wr {s s' : State} {t : TxId} {op : Op} (h : NOInv s) (hs : stepWr 
 
 
 theorem noInv_access {s s' : State} {t : TxId} {n : Name} (h : NOInv s) (hg : mayAccess s t n = true)
-    (hs : stepAccess s t n = some s') : NOInv s' := by
-  obtain ⟨tx, o, ob', nx, mp, ht, hop, hc, hcase, hS⟩ := stepAccess_some hs
+    (hs : AccessOut s t n s') : NOInv s' := by
+  obtain ⟨tx, o, ob', nx, mp, ht, hop, hc, hcase, hS⟩ := hs
   obtain ⟨tx0, ht0, hG⟩ := mayAccess_spec hg
   rw [ht] at ht0; simp only [Option.some.injEq] at ht0; subst ht0
   generalize s' = S at hS ⊢
@@ -2826,9 +2869,10 @@ theorem noInv_access {s s' : State} {t : TxId} {n : Name} (h : NOInv s) (hg : ma
           cases inMap with
           | true => exact Or.inr (by simp)
           | false =>
-            rcases hpriv rfl with hsh | ⟨_, _, _, _, hwf, _⟩
+            rcases hpriv rfl with hsh | ⟨_, _, _, _, hwf, _⟩ | hwm
             · exact Or.inl (by simpa using h.pm hsh m)
             · rw [g2] at hwf; simp at hwf
+            · exact Or.inl (by simpa using hwm g2)
         | existing o2 ob2 hsh hm ho hwn hr => exact Or.inr hm
       · rw [hmp_other m hmn]; exact h.wmap u tx m o' ht g2 hold
     · rw [hother u e] at g1
@@ -2883,7 +2927,12 @@ theorem noInv_stepNO {s s' : State} {l : Label} (h : NOInv s) (hs : stepNO s l =
   | access t n =>
     simp only [stepNO] at hs
     by_cases hg : mayAccess s t n = true
-    · rw [if_pos hg] at hs; exact noInv_access h hg hs
+    · rw [if_pos hg] at hs; exact noInv_access h hg (stepAccess_some hs)
+    · rw [if_neg hg] at hs; simp at hs
+  | accessCold t n =>
+    simp only [stepNO] at hs
+    by_cases hg : mayAccess s t n = true
+    · rw [if_pos hg] at hs; exact noInv_access h hg (stepAccessCold_some hs)
     · rw [if_neg hg] at hs; simp at hs
   | leave t n => simp only [stepNO, step] at hs; exact noInv_leave h hs
   | read t n i => simp only [stepNO, step] at hs; exact noInv_read h hs
@@ -2898,6 +2947,11 @@ theorem noInv_stepNO {s s' : State} {l : Label} (h : NOInv s) (hs : stepNO s l =
 theorem stepNO_step {s s' : State} {l : Label} (hs : stepNO s l = some s') : step s l = some s' := by
   cases l with
   | access t n =>
+    simp only [stepNO] at hs
+    by_cases hg : mayAccess s t n = true
+    · rw [if_pos hg] at hs; exact hs
+    · rw [if_neg hg] at hs; simp at hs
+  | accessCold t n =>
     simp only [stepNO] at hs
     by_cases hg : mayAccess s t n = true
     · rw [if_pos hg] at hs; exact hs
@@ -2971,6 +3025,42 @@ def seqb : List Label :=
   [.beginW 2, .access 2 0, .wr 2 (.del 0 7), .wr 2 (.delPt 7), .closeTx 2 true, .release 2 0,
    .beginR 1, .access 1 0, .read 1 0 7, .read 1 0 1, .leave 1 0, .backfill 1 1, .closeTx 1 true,
    .beginR 3, .access 3 0, .read 3 0 1, .read 3 0 2, .leave 3 0, .backfill 3 2, .closeTx 3 true]
+
+/-- the hand-off of a ROLLED-BACK writer's object (forced families `wfailq`): writer 2 inserts item 8 and fails
+(`closeTx 2 false`); writer 3 has begun and waits for the object; writer 2 gives it up (`release`: scrapped and out of
+the map in one step); writer 3 is sent to a temporary cold object (`accessCold`), looks for 8 (absent), inserts item 9
+and commits; reader 4, alone, builds the manager's new object and reads 8 (absent), 9 and 1 -/
+def handoff : List Label :=
+  [.beginW 2, .access 2 0, .wr 2 (.setPt 8 208), .wr 2 (.put 0 8 208), .closeTx 2 false, .beginW 3, .release 2 0,
+   .accessCold 3 0, .read 3 0 8, .wr 3 (.setPt 9 309), .wr 3 (.put 0 9 309), .closeTx 3 true, .release 3 0,
+   .beginR 4, .access 4 0, .read 4 0 8, .read 4 0 9, .read 4 0 1, .leave 4 0, .backfill 4 9, .closeTx 4 true]
+
+/-- What `cacheTx.Commit` of a rolled-back writer must NOT do: give the object up (unlock) without taking it out of
+the manager's map and without marking it - the effect, at this level, of `seeded/C07-2p` (dropped from the map but not
+marked: the writer queued for it still has the pointer) and of `seeded/C09-r3-1` (unlocked before it is marked and
+dropped).  NOT a step of the model: only used by `handoffKept` / `C09_handoff_needed`. -/
+def stepReleaseKeep (s : State) (t : TxId) (n : Name) : Option State :=
+  match s.txs t with
+  | none => none
+  | some tx =>
+    if tx.isWrite = false ∨ tx.isOpen = true then none
+    else match tx.cur n with
+      | none => none
+      | some o =>
+        match s.objs o with
+        | none => none
+        | some ob =>
+          some { s with objs := upd s.objs o (some { ob with writer := none }),
+                        txs := upd s.txs t (some { tx with cur := upd tx.cur n none }) }
+
+/-- `handoff` with the faulty give-up: writer 3 gets the object of the rolled-back writer 2 (every `access` still
+satisfies the no-overlap discipline: 2 has ended and has let go), reader 4 after it -/
+def handoffKept : Option State :=
+  (runNO (init true exDisk)
+    [.beginW 2, .access 2 0, .wr 2 (.setPt 8 208), .wr 2 (.put 0 8 208), .closeTx 2 false, .beginW 3]).bind fun s1 =>
+  (stepReleaseKeep s1 2 0).bind fun s2 =>
+  runNO s2 [.access 3 0, .read 3 0 8, .wr 3 (.setPt 9 309), .wr 3 (.put 0 9 309), .closeTx 3 true, .release 3 0,
+            .beginR 4, .access 4 0, .read 4 0 8, .leave 4 0, .backfill 4 8]
 
 /-- The cache-coherence invariant of the quiescent state: every object in the manager's map is an
 object of that index and every item it caches is what the latest committed disk holds; object ids
